@@ -236,8 +236,10 @@ def cases(tier, seed):
     # every numeric spelling, with and without an empty item in the program (the two READ paths)
     spellings = [["1", "E", "-", "5"], ["2", "E", "-", "7"], ["1.25", "E", "-", "5"], ["1", "E", "20"], [".000001"], ["123456.789"],
                  ["-", "1", "E", "-", "10"], ["1", "E", "3"], ["0.00004"], ["65535"], ["1.5", "E", "+", "2"], ["-", ".5"], ["12."], ["007"]]
-    for sp in spellings:
-        val = float("".join(sp))
+    # degenerate spellings Color BASIC reads as numbers all the same: a lone point is zero, a missing exponent is E0
+    odd = [([".",], 0.0), (["+", "."], 0.0), (["-", "."], 0.0), ([".", "E", "3"], 0.0), (["5", "E"], 5.0), (["5", "E", "+"], 5.0), (["-", "5", "E", "-"], -5.0),
+           (["+", "7"], 7.0), (["-", "-", "7"], 7.0), (["0"], 0.0), (["-", "0"], 0.0), (["00.50"], 0.5)]
+    for sp, val in [(sp, float("".join(sp))) for sp in spellings] + odd:
         for with_empty in (True, False):
             items = ([("u", "")] if with_empty else []) + [("n", val, sp), ("n", 3.0, ["3"])]
             tg = ([("var", "A")] if with_empty else []) + [("var", "B"), ("var", "C")]
